@@ -40,7 +40,7 @@ hook_commits = subprocess.run(["git", "-C", "/repo", "log", "--format=%H", "--gr
                               text=True).stdout.split()
 man = {
     "version": 1,
-    "setup_cmd": "/venv/bin/pip install --no-index --find-links /opt/veriftools/wheels hypothesis >/dev/null 2>&1; /venv/bin/python -c 'import hypothesis, numpy, scipy, gpyreg'",
+    "setup_cmd": "/venv/bin/pip install --no-index --find-links /opt/veriftools/wheels hypothesis >/dev/null 2>&1; /venv/bin/pip install --no-index --find-links /opt/veriftools/wheels --target .deps atheris >/dev/null 2>&1; /venv/bin/python -c 'import hypothesis, numpy, scipy, gpyreg'",
     "hooks": {
         "guard": "PYBADS_VERIF",
         "enable": "checks set PYBADS_VERIF=1 in the worker environment and install pybads.bads.bads._verif_loop_probe; pybads is pure Python, every check starts fresh interpreters importing /repo's working tree",
